@@ -1877,7 +1877,6 @@ func variadicConsts(v ssa.Value) ([]int64, bool) {
 
 var _ = packages.NeedName
 
-
 // attrNamePrefixes evaluates, for every note.DegreeName constant, the name prefix chord.GenerateAttributes gives to
 // attributes of that quality: the (prefix, ok) source feeding its Sprintf("%s%d", ...) is either a lookup in an immutable
 // table or a call of a repo function of the quality; both are folded on each constant. Qualities without a prefix are absent.
